@@ -7,6 +7,7 @@
 import Poupool.Proofs.EcoArith
 import Poupool.Proofs.EcoLoopStep
 import Poupool.Proofs.EcoDayInv
+import Poupool.Proofs.EcoDayHeat
 
 namespace Poupool.Eco
 open Poupool.Generated
@@ -259,8 +260,8 @@ completed, hence `j ≤ 5 s + (6 * period + 9) * eps`, `u ≤ 5 s + (4 * period 
 the pump-on time of every whole day is within `[min daily 24h - slackLo, min daily 24h + slackHi]`. -/
 
 /-- C10, whole days, tick-only runs, unconditional in the settings: for EVERY daily duration ≥ 1 s (the dispatcher
-admits 1 s .. 48 h), period count 1..10, tank percentage, reset hour, already-elapsed duration ≥ 0, start instant (not the
-exact µs of a reset, see `C10_quota_whole_day_start_at_reset`), and every sequence of timer expiries handled at most
+lets through 1 s .. 48 h), period count 1..10, tank percentage, reset hour, already-elapsed duration ≥ 0, start instant (not the
+exact µs of a reset: hypothesis `hs`, the only instant for which `Loop.start` itself sees the reset — not covered yet), and every sequence of timer expiries handled at most
 `eps ≤ 0.6 s` late (the simulator's real runs show ≤ 0.5 s + a few µs; the correspondence checks ≤ 0.6 s on every run): every day of the run but the first (which starts when eco is entered) starts at a reset, and the
 pump-on time of every such day differs from `min daily 24h` by at most `slackLo` below and `slackHi` above — both
 below the property's 180 s.  (This is the day theorem applied inductively: it speaks about all the days of the run.) -/
@@ -329,5 +330,106 @@ theorem C10_ghosts_closed_form (eps : Int) (p : Params) (evs : List Ev) (he : 0 
   exact hday.hdays r hr
 
 example : (5000000 : Int) + 6 * (10 * 500000) + 9 * 500000 = 39500000 := by decide
+
+/-! ### (e) heating interludes (Proofs/EcoDayHeat.lean)
+
+`heating_running` polls account the whole time at factor 1 and add it to the pump-on time; they never look at the
+quota.  Hence scheduled heating time counts towards the quota (lower bound) and a heating interlude that lasts beyond
+the quota necessarily exceeds it: the statement read literally ("runs for the configured daily duration to within
+3 minutes") is false — open known finding `Filtration.eco-cycle:quota-exceeded-by-late-heating`; the monitor bounds the
+pump time by max(quota, pump time at the end of the day's last heating interlude) + 180 s instead. -/
+
+/-- One poll of `heating_running` (pump on, timers polled at `now`, poll armed), handled `j0 ≥ 0` late and before the
+reset: the state is again a polled `heating_running` state and the whole interval is added both to the accounted
+filtration duration and to the pump-on time of the day — for EVERY daily duration and every accounted duration (no
+`filtration.elapsed()` cut-off). -/
+theorem C10_heating_poll_counts (eps : Int) (s : Loop) (j0 j1 j2 : Int) (h : HeatPolled s) (hj : 0 ≤ j0)
+    (hnr : s.now + EcoConfig.pollDelayUs + j0 < s.eco.nextReset) :
+    HeatPolled (ecoStep eps s (.tick j0 j1 j2)).1
+    ∧ (ecoStep eps s (.tick j0 j1 j2)).1.now = s.now + EcoConfig.pollDelayUs + j0
+    ∧ (ecoStep eps s (.tick j0 j1 j2)).1.onToday = s.onToday + (EcoConfig.pollDelayUs + j0)
+    ∧ (ecoStep eps s (.tick j0 j1 j2)).1.eco.filtration.duration = s.eco.filtration.duration + (EcoConfig.pollDelayUs + j0) := by
+  obtain ⟨p1, p2, p3, p4, _⟩ := heating_poll eps s j0 j1 j2 h hj hnr
+  exact ⟨p1, p2, p3, p4⟩
+
+/-- the state of the counterexample below after `eco` at 23:59:50, the reset poll, `eco_waiting`, `heat`, first poll -/
+def cexParams : Params := ⟨25200, 8, 0, 1, 0, 86390000000, 0⟩
+def cexPrefix : List Ev := [.tick 0 0 0, .tick 0 0 0, .tick 0 0 0, .tick 0 0 0, .tick 0 0 0, .heat 1000000, .tick 0 0 0]
+
+example : HeatPolled (ecoFinal 0 (Loop.start 0 cexParams).1 cexPrefix) := ⟨by decide, by decide, by decide, by decide⟩
+
+/-- `n` on-time polls of `heating_running` before the reset add `n * 10 s` to the pump-on time of the day and to the
+accounted duration, whatever the quota. -/
+theorem C10_heating_polls_no_cutoff (eps : Int) (n : Nat) (s : Loop) (h : HeatPolled s)
+    (hnr : s.now + n * EcoConfig.pollDelayUs < s.eco.nextReset) :
+    (ecoFinal eps s (List.replicate n (.tick 0 0 0))).onToday = s.onToday + n * EcoConfig.pollDelayUs
+    ∧ (ecoFinal eps s (List.replicate n (.tick 0 0 0))).eco.filtration.duration = s.eco.filtration.duration + n * EcoConfig.pollDelayUs
+    ∧ (ecoFinal eps s (List.replicate n (.tick 0 0 0))).pumpOn = true
+    ∧ (ecoFinal eps s (List.replicate n (.tick 0 0 0))).full = s.full := by
+  obtain ⟨q1, _, q3, q4, _, q6⟩ := heating_polls eps n s h hnr
+  exact ⟨q3, q4, q1.hpump, q6⟩
+
+example : (ecoFinal 0 (Loop.start 0 cexParams).1 cexPrefix).now + (2540 : Nat) * EcoConfig.pollDelayUs
+    < (ecoFinal 0 (Loop.start 0 cexParams).1 cexPrefix).eco.nextReset := by decide
+
+/-- The literal reading of the upper bound is FALSE (model witness of the open known finding
+`Filtration.eco-cycle:quota-exceeded-by-late-heating`): daily duration 7 h, 8 periods, every handler on time; the pool
+enters eco at 23:59:50, the reset poll at 00:00:05 starts a whole day, the scheduled heating starts at 00:00:11 and
+lasts longer than the quota; after 2540 heating polls (07:03:31) the pump has run 25405 s on a day configured for
+25200 s, more than 180 s over the quota (and it keeps running as long as the heating lasts; the pump-on time of a day
+never decreases).  The real-code replay of the finding (heating 21:00 – 23:25 after the eco cycle has used 6 h 07 min:
+8 h 32 min 26 s, the same value in this model) is `checks/c10.py LATE_HEATING`. -/
+theorem C10_quota_literal_upper_late_heating_counterexample :
+    ∃ (p : Params) (evs : List Ev), p.dailyS = 25200 ∧ p.period = 8
+      ∧ evs = cexPrefix ++ List.replicate 2540 (.tick 0 0 0)
+      ∧ (ecoFinal 0 (Loop.start 0 p).1 evs).full = true
+      ∧ (ecoFinal 0 (Loop.start 0 p).1 evs).pumpOn = true
+      ∧ (ecoFinal 0 (Loop.start 0 p).1 evs).onToday = 25405 * US
+      ∧ (ecoFinal 0 (Loop.start 0 p).1 evs).onToday > p.dailyS * US + 180 * US := by
+  refine ⟨cexParams, cexPrefix ++ List.replicate 2540 (.tick 0 0 0), rfl, rfl, rfl, ?_⟩
+  have happ : ecoFinal 0 (Loop.start 0 cexParams).1 (cexPrefix ++ List.replicate 2540 (.tick 0 0 0))
+      = ecoFinal 0 (ecoFinal 0 (Loop.start 0 cexParams).1 cexPrefix) (List.replicate 2540 (.tick 0 0 0)) := by
+    unfold ecoFinal; rw [List.foldl_append]
+  have h7 : HeatPolled (ecoFinal 0 (Loop.start 0 cexParams).1 cexPrefix) := ⟨by decide, by decide, by decide, by decide⟩
+  obtain ⟨q1, _, q3, q4⟩ := C10_heating_polls_no_cutoff 0 2540 _ h7 (by decide)
+  have e1 : (ecoFinal 0 (Loop.start 0 cexParams).1 cexPrefix).onToday = 5000000 := by decide
+  have e2 : (ecoFinal 0 (Loop.start 0 cexParams).1 cexPrefix).full = true := by decide
+  have hpoll := cfg_poll
+  have hU : US = 1000000 := rfl
+  have hd : cexParams.dailyS = 25200 := rfl
+  rw [happ, q1, q3, q4, e1, e2, hpoll, hd, hU]
+  refine ⟨rfl, rfl, ?_, ?_⟩ <;> decide
+
+example : cexParams.dailyS = 25200 ∧ (1 : Int) ≤ cexParams.period ∧ cexParams.period ≤ 10
+    ∧ cexParams.start < nextResetAt cexParams.start cexParams.resetHour ∧ TickOK 0 (.tick 0 0 0) :=
+  ⟨by decide, by decide, by decide, by decide, ⟨by decide, by decide, by decide, by decide, by decide, by decide⟩⟩
+
+/-- Entry and exit of a heating interlude.  `heat` (accepted in eco_waiting / eco_normal): pump on, the accounted
+duration is kept (`eco_mode.clear()` only forgets the time since the last poll), first poll armed at once.
+`heating_delay` (from heating_running): the pump stays on for the configured delay (60 s), nothing is accounted,
+then `eco_compute` re-plans with what is left of the quota. -/
+theorem C10_heating_entry_exit (eps : Int) (s : Loop) (dt : Int) :
+    ((s.phase = .waiting ∨ s.phase = .normal) →
+      (ecoStep eps s (.heat dt)).1.phase = .heating ∧ (ecoStep eps s (.heat dt)).1.pumpOn = true
+      ∧ (ecoStep eps s (.heat dt)).1.now = s.now + dt ∧ (ecoStep eps s (.heat dt)).1.due = s.now + dt
+      ∧ (ecoStep eps s (.heat dt)).1.eco.filtration.duration = s.eco.filtration.duration
+      ∧ (ecoStep eps s (.heat dt)).1.eco.filtration.last = none
+      ∧ (ecoStep eps s (.heat dt)).1.onToday = s.onToday + (if s.pumpOn then dt else 0))
+    ∧ (s.phase = .heating →
+      (ecoStep eps s (.heatEnd dt)).1.phase = .heatDelay ∧ (ecoStep eps s (.heatEnd dt)).1.pumpOn = s.pumpOn
+      ∧ (ecoStep eps s (.heatEnd dt)).1.due = s.now + dt + EcoConfig.heatingDelayToEcoUs
+      ∧ (ecoStep eps s (.heatEnd dt)).1.eco.filtration.duration = s.eco.filtration.duration
+      ∧ (ecoStep eps s (.heatEnd dt)).1.onToday = s.onToday + (if s.pumpOn then dt else 0)) := by
+  constructor
+  · intro hp
+    rcases hp with hp | hp <;>
+      simp [ecoStep, Loop.advance, hp, EcoMode.clear, Timer.clear, Timer.setDelay] <;> split <;> omega
+  · intro hp
+    simp [ecoStep, Loop.advance, hp, EcoMode.clear, Timer.clear, Timer.setDelay]
+    split <;> omega
+
+example : (ecoStep 0 (ecoFinal 0 (Loop.start 0 cexParams).1 (cexPrefix.take 5)) (.heat 1000000)).1.phase = .heating
+    ∧ (ecoFinal 0 (Loop.start 0 cexParams).1 (cexPrefix.take 5)).phase = .waiting
+    ∧ EcoConfig.heatingDelayToEcoUs = 60000000 := by decide
 
 end Poupool.Eco
